@@ -99,6 +99,7 @@ func runStreamWith(doc []byte, rs *ReaderScn, sharedIP *commonmark.InlineParser)
 		}
 		obs.ExtraErrs = append(obs.ExtraErrs, err)
 	}
+	rd.reuse()
 	// stability: blocks delivered earlier must be unchanged by later calls
 	for i, b := range obs.Blocks {
 		if i >= len(obs.AtSnap) {
